@@ -24,6 +24,7 @@ import (
 	ledgerstore "github.com/formancehq/ledger/internal/storage/ledger"
 	"github.com/formancehq/ledger/internal/verif/gen"
 	"github.com/formancehq/ledger/internal/verif/pgfake"
+	"github.com/formancehq/ledger/pkg/features"
 )
 
 // Workload "sqlhist": random histories executed by the REAL store
@@ -57,6 +58,9 @@ type sqlOp struct {
 
 type sqlHistIn struct {
 	Ops []sqlOp `json:"ops"`
+	// ledger features differing from the defaults (MOVES_HISTORY, …_POST_COMMIT_EFFECTIVE_VOLUMES,
+	// HASH_LOGS, ACCOUNT_METADATA_HISTORY, TRANSACTION_METADATA_HISTORY)
+	Features map[string]string `json:"features,omitempty"`
 }
 
 type sqlHistOut struct {
@@ -123,7 +127,19 @@ func runSQLHist(in sqlHistIn) (out sqlHistOut, ops []sqlOp) {
 	}
 	ctx := context.Background()
 	sqlLedgerN++
-	l := ledger.MustNewWithDefault(fmt.Sprintf("h%d", sqlLedgerN))
+	fs := features.FeatureSet{}
+	for k, v := range features.DefaultFeatures {
+		fs[k] = v
+	}
+	for k, v := range in.Features {
+		fs[k] = v
+	}
+	lp, err := ledger.New(fmt.Sprintf("h%d", sqlLedgerN), ledger.Configuration{Bucket: ledger.DefaultBucket, Metadata: metadata.Metadata{}, Features: fs})
+	if err != nil {
+		out.Err = "ledger: " + err.Error()
+		return out, ops
+	}
+	l := *lp
 	l.ID = srv.AllocLedgerID()
 	if err := srv.CreateLedger(l); err != nil {
 		out.Err = "create ledger: " + err.Error()
@@ -240,7 +256,7 @@ func runSQLHist(in sqlHistIn) (out sqlHistOut, ops []sqlOp) {
 		out.Err = "dump: " + err.Error()
 		return out, ops
 	}
-	snap, err := snapshotOfDump(raw)
+	snap, err := snapshotOfDump(raw, fs[features.FeatureMovesHistory] == "ON")
 	if err != nil {
 		out.Err = "snapshot: " + err.Error()
 		return out, ops
@@ -291,7 +307,7 @@ func decodeNumber(b []byte, into any) error {
 	return d.Decode(into)
 }
 
-func snapshotOfDump(raw json.RawMessage) (json.RawMessage, error) {
+func snapshotOfDump(raw json.RawMessage, withMoves bool) (json.RawMessage, error) {
 	var tables map[string][]map[string]any
 	if err := decodeNumber(raw, &tables); err != nil {
 		return nil, err
@@ -420,7 +436,11 @@ func snapshotOfDump(raw json.RawMessage) (json.RawMessage, error) {
 		moves = append(moves, m)
 	}
 	sort.Slice(moves, func(i, j int) bool { return bigOf(moves[i].Seq.String()).Cmp(bigOf(moves[j].Seq.String())) < 0 })
-	snap["moves"] = moves
+	if withMoves {
+		snap["moves"] = moves
+	} else if len(moves) != 0 {
+		return nil, fmt.Errorf("moves rows although MOVES_HISTORY is OFF")
+	}
 	// accounts
 	type snapAccount struct {
 		Address       string            `json:"address"`
@@ -454,6 +474,24 @@ func genSQLHistIn(c *gen.Ctx) sqlHistIn {
 		n = 2 + r.Intn(20)
 	}
 	in := sqlHistIn{}
+	if r.Intn(2) == 0 {
+		in.Features = map[string]string{}
+		pick := func(name string, vals ...string) {
+			if v := gen.Pick(r, vals); v != features.DefaultFeatures[name] {
+				in.Features[name] = v
+			}
+		}
+		pick(features.FeatureAccountMetadataHistory, "SYNC", "DISABLED")
+		pick(features.FeatureTransactionMetadataHistory, "SYNC", "DISABLED")
+		pick(features.FeatureHashLogs, "SYNC", "ASYNC", "DISABLED")
+		switch r.Intn(6) {
+		case 0:
+			in.Features[features.FeatureMovesHistoryPostCommitEffectiveVolumes] = "DISABLED"
+		case 1:
+			in.Features[features.FeatureMovesHistory] = "OFF"
+			in.Features[features.FeatureMovesHistoryPostCommitEffectiveVolumes] = "DISABLED"
+		}
+	}
 	committed := 0
 	metaPool := []map[string]string{{"k": "v"}, {"k": "w", "x": ""}, {"tier": "gold"}, {}}
 	for i := 0; i < n; i++ {
@@ -507,7 +545,7 @@ func init() {
 		if out.Err != "" && out.Snapshot == nil {
 			return errors.New(out.Err)
 		}
-		return c.Emit("hist", sqlHistIn{Ops: ops}, out)
+		return c.Emit("hist", sqlHistIn{Ops: ops, Features: in.Features}, out)
 	}
 	gen.Register("sqlhist", func(c *gen.Ctx) error {
 		defer func() {
